@@ -55,10 +55,16 @@ BOUNDED_VALUES = [
     "[]", "[1, 2, 3]", "[1.5, 100000000000000000000.0]", "[\"a\\\"b\", \"\"]", "[[1], []]",
     "(1, \"x\")", "(1.5, [2], (3, 4))", "Dict[\"a\" => 1]", "Dict[\"k\\\"\" => [1.5]]",
     "True", "False", "Unit", "Some(1)", "None", "Some(\"x\\\\\")", "Ok(1.5)", "Err(\"e\")", "Some((1, [2.5]))",
+    # user-defined types (definitions in ROUNDTRIP_DEFS): struct literals with the fields in and out of definition order, nested, enums
+    "Point{ x: 1, y: 2 }", "Point{ y: 2, x: 1 }", "[Point{ y: 2, x: 1 }, Point{ x: 3, y: 4 }]", "Some(Point{ y: 5, x: 6 })", "(Point{ y: 7, x: 8 }, 1.5)",
+    "Named{ label: \"a\\\"b\", inner: Point{ y: 1, x: 2 }, tags: [\"t\"] }", "Named{ tags: [], inner: Point{ x: 0, y: 0 }, label: \"\" }",
+    "Circle(3)", "Square", "[Circle(1), Square]", "Labelled((\"q\\n\", Point{ y: 1, x: 1 }))", "Dict[\"p\" => Point{ y: 2, x: 1 }]",
 ]
+ROUNDTRIP_DEFS = ("struct Point { x: Int, y: Int }\nstruct Named { label: String, inner: Point, tags: List<String> }\n"
+                  "enum Shape { Circle(Int), Square, Labelled((String, Point)) }\n")
 BOUNDED = [
-    {"name": "display_round_trip", "kind": "roundtrip", "props": ["C12"], "input": BOUNDED_VALUES, "n_inputs": len(BOUNDED_VALUES),
-     "bound": "%d listed values (ints at the limits, finite floats incl. beyond 2^63, strings with escapes, nested lists/tuples/dicts/options/results)" % len(BOUNDED_VALUES),
+    {"name": "display_round_trip", "kind": "roundtrip", "props": ["C12"], "input": BOUNDED_VALUES, "n_inputs": len(BOUNDED_VALUES), "defs": ROUNDTRIP_DEFS,
+     "bound": "%d listed values (ints at the limits, finite floats incl. beyond 2^63, strings with escapes, nested lists/tuples/dicts/options/results, struct literals with fields in and out of definition order, enum variants with payloads)" % len(BOUNDED_VALUES),
      "expect": {}},
 ]
 
